@@ -40,10 +40,14 @@ type c14Case struct {
 	// Lag: the GUI has not yet read this many answers (to isready lines sent
 	// just before) when it writes the go, and goes on not reading for LagUS of
 	// simulated time; Debug: `debug on` was sent before the go.
-	Lag   int    `json:"lag,omitempty"`
-	LagUS int64  `json:"lag_us,omitempty"`
-	Debug bool   `json:"debug,omitempty"`
-	FEN   string `json:"fen,omitempty"`
+	Lag   int   `json:"lag,omitempty"`
+	LagUS int64 `json:"lag_us,omitempty"`
+	Debug bool  `json:"debug,omitempty"`
+	// EOFAfterUS > 0 (last case of a session only): the GUI closes the input
+	// this long after the go, without a stop; nothing may keep the search
+	// running beyond the deadline then either.
+	EOFAfterUS int64  `json:"eof_after_us,omitempty"`
+	FEN        string `json:"fen,omitempty"`
 }
 
 func (c c14Case) goLine() string {
@@ -294,6 +298,13 @@ func buildC14Scenario(cases []c14Case, real bool) *C14Scenario {
 			}
 		}
 		total := limit*1000 + 7_000_000
+		if c.EOFAfterUS > 0 {
+			add(UStep{Op: "tick", DUS: c.EOFAfterUS})
+			add(UStep{Op: "eof"})
+			add(UStep{Op: "tick", DUS: total})
+			add(UStep{Op: "drain"})
+			return &C14Scenario{UCI: sc, Cases: cases}
+		}
 		var at int64
 		if lag && !c.Ponder {
 			at = c.LagUS
@@ -381,8 +392,12 @@ func monitorC14(cs *C14Scenario, out *UCIOutcome, windows []*goWindow) (vs []Vio
 	seen := map[key]c14Obs{}
 	for i, w := range windows {
 		c := cs.Cases[i]
-		if w.call == nil || !w.call.Returned {
+		if w.call == nil {
 			add("no-search", fmt.Sprintf("case %+v: the driver did not run a search for %q", c, w.goLine), w.goSeq)
+			continue
+		}
+		if !w.call.Returned {
+			add("no-deadline", fmt.Sprintf("case %+v (%q): the search was never stopped (it was still running at the end of the session)", c, w.goLine), w.goSeq)
 			continue
 		}
 		// the instant the GUI's own stop line was written (after the long wait)
@@ -425,6 +440,18 @@ func monitorC14(cs *C14Scenario, out *UCIOutcome, windows []*goWindow) (vs []Vio
 		obs = append(obs, o)
 		remUS := c.Own * 1000
 		desc := fmt.Sprintf("go=%q side=%s own=%dms inc=%dms", w.goLine, map[bool]string{true: "white", false: "black"}[c.White], c.Own, c.OwnInc)
+		if c.EOFAfterUS > 0 && o.HUS >= c.EOFAfterUS {
+			// stopped because the input ended, not by the deadline: it must still
+			// not be later than the clock allows (and it was stopped at all, above)
+			lim := remUS
+			if c.MoveTime > 0 {
+				lim = c.MoveTime * 1000
+			}
+			if o.HUS > lim {
+				add("exceeds-remaining", fmt.Sprintf("%s: the input ended %d us after the go, the search was stopped after %d us, later than the clock allows", desc, c.EOFAfterUS, o.HUS), w.goSeq)
+			}
+			continue
+		}
 		if !o.ByTimer {
 			add("exceeds-remaining", fmt.Sprintf("%s: no deadline fired within the remaining time plus 7 s; the search only ended on the GUI's stop", desc), w.goSeq)
 			continue
